@@ -455,6 +455,9 @@ func main() {
 		}
 		r.Sample(map[string]interface{}{"sequential_search_queue_capacity": capacity, "depth": depth, "states": st.States, "transitions": st.Transitions})
 	}
+	nsp := slowPath()
+	r.Set("slow_path_scenarios", nsp)
+	r.Add("traces_validated_against_impl", nsp)
 	bound := r.Pick(2, -1)
 	execs, outcomes := coop(bound)
 	r.Add("transitions", execs)
